@@ -255,6 +255,9 @@ func newChecker(o *storage.LookupOptions, op *predicate.Predicate) *checker {
 // CheckGlobalTimeBounds checks if a predicate should be considered given the global
 // time bounds.
 func (c *checker) CheckGlobalTimeBounds(p *predicate.Predicate) bool {
+	if c.op != nil && c.op.Type() != p.Type() {
+		return false
+	}
 	if p.Type() == predicate.Immutable {
 		return true
 	}
